@@ -468,6 +468,17 @@ func (a *analyzer) analyzeFunc(fi *core.FuncInfo, entryHeld bool) *FuncLocks {
 					return
 				}
 			}
+			// &x.f handed to a helper (removeEnd(&o.first)) takes the field's address, it does not read the
+			// field: the access happens where the pointer is dereferenced
+			addrOnly := map[*ast.SelectorExpr]bool{}
+			ast.Inspect(n, func(m ast.Node) bool {
+				if u, ok := m.(*ast.UnaryExpr); ok && u.Op == token.AND {
+					if sel, ok := ast.Unparen(u.X).(*ast.SelectorExpr); ok {
+						addrOnly[sel] = true
+					}
+				}
+				return true
+			})
 			ast.Inspect(n, func(m ast.Node) bool {
 				switch v := m.(type) {
 				case *ast.AssignStmt:
@@ -577,7 +588,7 @@ func (a *analyzer) analyzeFunc(fi *core.FuncInfo, entryHeld bool) *FuncLocks {
 					}
 				case *ast.SelectorExpr:
 					if id, ok := ast.Unparen(v.X).(*ast.Ident); ok && info.ObjectOf(id) == recv {
-						if fv, ok := info.Uses[v.Sel].(*types.Var); ok && fv.IsField() && fv.Name() != a.tl.LockField {
+						if fv, ok := info.Uses[v.Sel].(*types.Var); ok && fv.IsField() && fv.Name() != a.tl.LockField && !addrOnly[v] {
 							r.accesses = append(r.accesses, Access{Field: fv.Name(), Write: writes[v], Held: st.held, Pos: v.Pos(), Elem: elemWrites[v], Shared: st.shared && st.held == Yes})
 						}
 					} else if fv, ok := info.Uses[v.Sel].(*types.Var); ok && fv.IsField() && len(a.nodes) > 0 {
